@@ -22,7 +22,8 @@ TIE_IS_SPEC = True
 SITES = ["C01.plumb.mse", "C01.plumb.mae", "C01.plumb.additive_bias", "C01.plumb.multiplicative_bias", "C01.plumb.pbias", "C01.plumb.quantile_score",
          "C01.plumb.quantile_interval_score", "C01.plumb.consistent_expectile_score", "C01.plumb.consistent_huber_score",
          "C01.plumb.consistent_quantile_score", "C01.plumb.crps_for_ensemble", "C01.plumb.brier_score_for_ensemble", "C01.plumb.murphy_score",
-         "C01.plumb.firm", "C01.plumb.probability_of_detection", "C01.plumb.probability_of_false_detection", "C01.plumb.crps_cdf"]
+         "C01.plumb.firm", "C01.plumb.probability_of_detection", "C01.plumb.probability_of_false_detection", "C01.plumb.crps_cdf", "C01.plumb.crps_cdf_brier_decomposition", "C01.plumb.risk_matrix_score", "C01.plumb.contingency_counts",
+         "C01.plumb.pearsonr", "C01.plumb.kge"]
 RULE = ("rule: every configuration (fcst dims, obs dims, weights dims|None, reduce, preserve, score-specific) over a universe of names, "
         "requests in every spelling (None, 'all', bare string, list incl. empty, absent name, both options); public functions: random "
         "labelled arrays x every subset R of the data dims x spellings. distinct = distinct configuration / call; non-trivial = the "
